@@ -133,7 +133,6 @@ void GridWavelet::getQuadratureWeights(double weights[]) const{
     }
     TSG_VERIF_SCHED("wcache:before_check");
     TSG_VERIF_EVENT("wcache_check", {0, 1, (inter_matrix.getNumRows() != num_points) ? 0 : 1});
-    TSG_VERIF_SCHED("wcache:after_check");
     if (inter_matrix.getNumRows() != num_points) buildInterpolationMatrix();
     TSG_VERIF_SCHED("wcache:before_use");
     TSG_VERIF_EVENT("wcache_use_begin", {0, 1});
@@ -150,7 +149,6 @@ void GridWavelet::getInterpolationWeights(const double x[], double weights[]) co
     }
     TSG_VERIF_SCHED("wcache:before_check");
     TSG_VERIF_EVENT("wcache_check", {0, 2, (inter_matrix.getNumRows() != num_points) ? 0 : 1});
-    TSG_VERIF_SCHED("wcache:after_check");
     if (inter_matrix.getNumRows() != num_points) buildInterpolationMatrix();
     TSG_VERIF_SCHED("wcache:before_use");
     TSG_VERIF_EVENT("wcache_use_begin", {0, 2});
@@ -167,7 +165,6 @@ void GridWavelet::getDifferentiationWeights(const double x[], double weights[]) 
     }
     TSG_VERIF_SCHED("wcache:before_check");
     TSG_VERIF_EVENT("wcache_check", {0, 3, (inter_matrix.getNumRows() != num_points) ? 0 : 1});
-    TSG_VERIF_SCHED("wcache:after_check");
     if (inter_matrix.getNumRows() != num_points) buildInterpolationMatrix();
     TSG_VERIF_SCHED("wcache:before_use");
     TSG_VERIF_EVENT("wcache_use_begin", {0, 3});
